@@ -23,7 +23,9 @@ RULE = ("scripts over 2-3 real kv.DB nodes (kv.Open pipelines, memkv engines, mo
         "nodes (forwarding), gossip rounds (reply read before or after ingestion), payload snapshots delivered late/"
         "duplicated/never, feedback in any order or lost, back-to-back recovery; (C) B + fair gossip sweeps to "
         "quiescence; (E) a key overwritten while feedback for its previous version is in flight, then sweeps; (D) "
-        "malformed: versions <= 0, leaseholder 0/4095, incoherent duplicates, unknown senders/leaseholders/indices. "
+        "malformed: versions <= 0, leaseholder 0/4095, incoherent duplicates, unknown senders/leaseholders/indices. 25% of "
+        "the scripts add storage faults: the node's engine (wrapped) refuses to commit the next ingress transaction that "
+        "wrote something, usually followed by the same delivery again. "
         "Extra phase = the space of the known findings, each family with the only codes it may produce: two creators "
         "of one key (G, Bd, D2), recovery split from its high-water read / two peers / restarts (F, R), unfair sweeps "
         "on 3 nodes (U). Non-trivial = some key changed its digest at least twice on one node, a redelivery was "
